@@ -86,7 +86,13 @@ def judge(sim, ev, rec):
     elif k in ("answer", "unsol"):
         judge_answer(sim, ev, rec)
     elif k == "aq_answer":
-        pass
+        if rec.get("error") and not ev.get("tf"):
+            if rec.get("benign_ok"):
+                sim.count("oracle.C08.content-made-provider-fail")
+                add(sim, rec, "C08", "content-made-provider-fail", "%s: %s (the same call succeeds with bland content)" % (
+                    rec.get("error"), rec.get("error_msg")))
+            else:
+                sim.count("probe.provider-failed-independent-of-content." + str(rec.get("error")))
     elif k == "req":
         judge_req(sim, ev, rec)
 
@@ -476,7 +482,16 @@ def judge_answer(sim, ev, rec):
     enc_labels = idp.md_certs_for(sp_entity, "encryption") if sp_entity else None
     can_encrypt = bool(enc_labels)
     if not rec.get("ok"):
-        return      # the Server call raised: always acceptable for C20
+        # the Server call raised: always acceptable for C20.  Without any injected fault, an honest IdP
+        # that cannot build a response for a legal identity fails C08 ("for any content")
+        if rec.get("error") and not tf and not p.get("handover"):
+            if rec.get("benign_ok"):
+                sim.count("oracle.C08.content-made-provider-fail")
+                add(sim, rec, "C08", "content-made-provider-fail", "%s: %s (the same call succeeds with bland content)" % (
+                    rec.get("error"), rec.get("error_msg")))
+            else:
+                sim.count("probe.provider-failed-independent-of-content." + str(rec.get("error")))
+        return
     fl = sim.flows[rec["f"]]
     msg = fl.responses[rec["r"]]
     xml = msg.get("xml")
@@ -625,9 +640,15 @@ def judge_req(sim, ev, rec):
         for rule, detail in hits:
             prop = "C20" if rule == "no-genuine-verify" else "C10"
             add(sim, rec, prop, rule + ".handed", detail)
+            if rule == "untrusted-key":
+                # the trust rule of C03 holds for signed requests as well
+                add(sim, rec, "C03", "request." + rule + ".handed", detail)
         return
     faultless = not rec.get("mut") and not rec.get("tf")
     if faultless and not hits and fresh_comfortable and sig_ok and m["issuer"] in idp.peer_view \
             and (m["destination"] in own):
         sim.count("oracle.C10.accept-required.refused")
         add(sim, rec, "C10", "valid-request-refused", "exc=%s" % rec.get("exc"))
+        if m["signed"]:
+            add(sim, rec, "C03", "request.trusted-signature-refused", "exc=%s valid_under=%s K=%s" % (
+                rec.get("exc"), F.get("valid_under"), F.get("K")))
